@@ -569,7 +569,7 @@ class Srv:
                     if not ss or not b.dominates(ss[0].block, e.block):
                         res.bad("R9.unreachable", "InternalConstsSent|order", "InternalConstsSent can be queued before the state is SendingConsts", fl(e.sp))
                         ok = False
-        res.floor("InternalConstsSent_sites", n, 1)
+        res.need("R9.unreachable", "InternalConstsSent_sites", n, 1, "sites queuing PolicyCmd::InternalConstsSent")
         # (ii) nobody else leaves SendingConsts
         for name in ("schedule", "validate", "run", "consts"):
             h = self.hs.get(name)
@@ -696,7 +696,7 @@ class Srv:
                     res.bad("R9.notify", "%s|%s" % (name, "Executing" if role == name else "mpc-task"),
                             "one tokio::sync::Notify is used in both directions in this body (notify_one and notified().await): a notify_one permit stored by the own call can satisfy the own notified(), so the wait may return before the other side acted",
                             fl(ev.sp), key="R9.notify|state::%s|%s" % (name, "Executing" if role == name else "mpc-task"))
-        res.floor("notify_operations", n, 2)
+        res.count("notify_operations", n)
 
     # ============================================================ C16
     def c16(self):
@@ -741,7 +741,7 @@ class Srv:
                     res.bad("R9.compat", inst, "; ".join(probs), where(b, bi))
                 else:
                     res.ok("R9.compat", inst, where(b, bi), "mismatch edge: error reply, Break, never Validated / Ok; equal edge dominates Validated")
-        res.floor("compat_comparisons", n_cmp, 4)
+        res.need("R9.compat", "compat_comparisons", n_cmp, 4, "leader / program-hash comparisons of the validate rendezvous")
         # Validated sites
         allv = []
         for name, h in self.hs.items():
@@ -838,7 +838,7 @@ class Srv:
                 res.ok("R9.compat", "SendingConsts|from-Validated", fl(ents[0].sp), "the constants phase is only entered from Validated")
             else:
                 res.bad("R9.compat", "SendingConsts|from-Validated", "SendingConsts is entered from a state other than Validated")
-        res.floor("mpc_call_sites", n_mpc, 1)
+        res.need("R9.compat", "mpc_call_sites", n_mpc, 1, "call of polytune::mpc in the server core")
 
     def compare_sites(self, h, region):
         """[(what, switch block, mismatch target, equal target)] for leader / program_hash tests."""
@@ -916,7 +916,7 @@ class Srv:
                 for e in evs:
                     if e.kind == "acquire" and not e.nested:
                         acq.append((name, e))
-        res.floor("acquire_sites", len(acq), 1)
+        res.need("R9.permit", "acquire_sites", len(acq), 1, "acquire_owned on the concurrency semaphore")
         for name, e in acq:
             if name != "schedule":
                 res.bad("R9.permit", "acquire|%s" % name, "a concurrency permit is acquired in %s" % name, fl(e.sp))
@@ -973,7 +973,7 @@ class Srv:
                 for e in evs:
                     if e.kind == "permit_take" and not e.nested:
                         takes.append((name, e))
-        res.floor("permit_take_sites", len(takes), 1)
+        res.need("R9.permit", "permit_take_sites", len(takes), 1, "self.permit.take() handing the permit to the MPC task")
         for name, e in takes:
             if name != "run":
                 res.bad("R9.permit", "take|%s" % name, "the permit is taken out of the actor in %s" % name, fl(e.sp))
